@@ -1,7 +1,11 @@
 //! BOUNDED probe (C16 / C03): the stream reassembler fed with every 0-, 1-, 2- and 3-cut chunking of a stream of several
 //! packets (body lengths 0, 4, 16, 0, 44): the packets handed out, their order, the consumed byte counts and the
 //! "missing bytes" hints must not depend on the chunking, and a packet is delivered by the call that completes it.
-use stun_agent::{StunPacketDecodedValue, StunPacketDecoder};
+//! Error part: a valid packet followed by 20 bytes that are not a STUN header (first two bits 01 / 10 / 11, wrong magic
+//! cookie, all zero) or by the header of a packet larger than the buffer, in every 0-, 1- and 2-cut chunking: the packet is
+//! delivered, then the error of the right kind is raised by the chunk that completes those 20 bytes, and the buffer handed
+//! back holds exactly those 20 bytes (`buffer[..size]`).
+use stun_agent::{StunPacketDecodedValue, StunPacketDecoder, StunPacketErrorType};
 
 fn packet(msg_type: u16, seed: u8, body: usize) -> Vec<u8> {
     let mut p = vec![(msg_type >> 8) as u8, msg_type as u8, (body >> 8) as u8, body as u8, 0x21, 0x12, 0xA4, 0x42];
@@ -59,7 +63,83 @@ fn run(packets: &[Vec<u8>], cuts: &[usize]) -> Result<(), String> {
     Ok(())
 }
 
+// one valid packet, then `frame` (20 bytes): -> error kind name, position (bytes fed when raised), bytes handed back
+fn run_bad(first: &[u8], frame: &[u8], cuts: &[usize]) -> Result<(String, usize, Vec<u8>), String> {
+    let mut stream = first.to_vec();
+    stream.extend_from_slice(frame);
+    stream.extend_from_slice(&[0xEE; 8]);
+    let mut bounds = vec![0usize];
+    bounds.extend_from_slice(cuts);
+    bounds.push(stream.len());
+    let mut decoder = StunPacketDecoder::new(vec![0; 96]).map_err(|e| format!("{:?}", e))?;
+    let mut delivered = 0usize;
+    for w in bounds.windows(2) {
+        let mut rest = &stream[w[0]..w[1]];
+        loop {
+            match decoder.decode(rest) {
+                Ok(StunPacketDecodedValue::Decoded((p, n))) => {
+                    if delivered > 0 || p.as_ref() != first { return Err(format!("bytes that are not the first packet were returned as a STUN packet: {:02x?}", &p.as_ref()[..p.as_ref().len().min(24)])); }
+                    delivered += 1;
+                    rest = &rest[n..];
+                    decoder = StunPacketDecoder::new(vec![0; 96]).map_err(|e| format!("{:?}", e))?;
+                    if rest.is_empty() { break; }
+                }
+                Ok(StunPacketDecodedValue::MoreBytesNeeded((d, _))) => { decoder = d; break; }
+                Err(e) => {
+                    let kind = match e.error_type { StunPacketErrorType::InvalidStunPacket => "InvalidStunPacket", StunPacketErrorType::SmallBuffer => "SmallBuffer" };
+                    if delivered != 1 { return Err(format!("error {} before the valid packet was delivered", kind)); }
+                    if e.size > e.buffer.len() { return Err(format!("error size {} beyond the buffer handed back ({})", e.size, e.buffer.len())); }
+                    return Ok((kind.to_string(), w[1], e.buffer[..e.size].to_vec()));
+                }
+            }
+        }
+    }
+    Err("no error was raised for the bad frame".into())
+}
+
+fn bad_frames() -> Vec<(&'static str, Vec<u8>, &'static str)> {
+    let hdr = |b0: u8, b1: u8, len: u16, cookie: [u8; 4]| { let mut h = vec![b0, b1, (len >> 8) as u8, len as u8]; h.extend_from_slice(&cookie); h.extend((0..12).map(|i| 0x30 + i as u8)); h };
+    let ck = [0x21, 0x12, 0xA4, 0x42];
+    vec![
+        ("first bits 10", hdr(0x80, 0x01, 0, ck), "InvalidStunPacket"),
+        ("first bits 01 (ChannelData range)", hdr(0x40, 0x01, 0, ck), "InvalidStunPacket"),
+        ("first bits 01, 0x7f", hdr(0x7f, 0xff, 4, ck), "InvalidStunPacket"),
+        ("first bits 11", hdr(0xC1, 0x01, 0, ck), "InvalidStunPacket"),
+        ("wrong magic cookie", hdr(0x00, 0x01, 0, [0x21, 0x12, 0xA4, 0x43]), "InvalidStunPacket"),
+        ("all zero", vec![0u8; 20], "InvalidStunPacket"),
+        ("packet larger than the buffer", hdr(0x00, 0x01, 80, ck), "SmallBuffer"),
+        ("packet of 65535 attribute bytes", hdr(0x01, 0x01, 0xfffc, ck), "SmallBuffer"),
+    ]
+}
+
 fn main() {
+    let first = packet(0x0101, 50, 4);
+    let mut ebad = 0;
+    let mut en = 0usize;
+    'frames: for (name, frame, kind) in bad_frames() {
+        let total = first.len() + 20 + 8;
+        let mut cutsets: Vec<Vec<usize>> = vec![vec![]];
+        for a in 0..=total { cutsets.push(vec![a]); for b in a..=total { cutsets.push(vec![a, b]); } }
+        for cuts in cutsets {
+            en += 1;
+            // the chunk that completes the 20 bytes of the bad frame
+            let need = first.len() + 20;
+            let mut bounds = cuts.clone(); bounds.push(total);
+            let raise_at = *bounds.iter().find(|b| **b >= need).unwrap();
+            match run_bad(&first, &frame, &cuts) {
+                Ok((k, at, back)) => {
+                    if k != kind || at != raise_at || back != frame {
+                        println!("WITNESS: valid packet + frame '{}' cut at {:?}: error {} raised after {} bytes handing back {:02x?}; expected {} after {} bytes handing back the 20 header bytes", name, cuts, k, at, back, kind, raise_at);
+                        ebad += 1;
+                    }
+                }
+                Err(e) => { println!("WITNESS: valid packet + frame '{}' cut at {:?}: {}", name, cuts, e); ebad += 1; }
+            }
+            if ebad > 2 { break 'frames; }
+        }
+    }
+    if ebad > 0 { std::process::exit(1); }
+    println!("ok: {} chunkings of packet + bad frame raise the same error at the same place", en);
     let packets = vec![packet(0x0001, 1, 0), packet(0x0101, 50, 4), packet(0x0111, 90, 16), packet(0x0011, 100, 0), packet(0x0001, 7, 44)];
     let total: usize = packets.iter().map(Vec::len).sum();
     let mut bad = 0;
